@@ -20,6 +20,8 @@ let props : (string * prop) list = [
   "C02", sess_prop P_sess.check_C02 P_sess.nontrivial;
   "C02", { tag = "wops"; check = P_c02.check_wops; cross_header = ""; cross_footer = ""; nontrivial = P_c02.nontrivial_wops };
   "C15", sess_prop P_sess.check_C15 P_sess.nontrivial;
+  "C09", sess_prop P_sess.check_C09 P_sess.nontrivial;
+  "C14", { tag = "c14"; check = P_c14.check; cross_header = ""; cross_footer = ""; nontrivial = P_c14.nontrivial };
   "C03", sess_prop P_sess.check_C03 P_sess.nontrivial;
   "C03", { tag = "rd"; check = P_rd.check; cross_header = ""; cross_footer = ""; nontrivial = P_rd.nontrivial };
   "C18", sess_prop P_sess.check_C18 P_sess.nontrivial;
@@ -55,7 +57,7 @@ let () =
     | L (A "stat" :: A k :: A v :: _) -> Printf.fprintf oc "STAT %s %s\n" k v
     | L (A t :: A id :: A cls :: fields) when List.exists (fun (_, q) -> q.tag = t) ps ->
         let p = snd (List.find (fun (_, q) -> q.tag = t) ps) in
-        P_sess.cur_id := id;
+        Sess.cur_id := id;
         incr total;
         (match p.nontrivial fields with
          | Some key -> Hashtbl.replace seen key ()
